@@ -18,9 +18,12 @@ use std::time::Duration;
 pub static INFO: PropInfo = PropInfo {
     id: "C13",
     level: "exploration",
-    rule: "three kinds of evaluation. (A) sender stress: a fresh RenetClient whose packet-sequence and message-id counters are seeded (hook) to magnitudes {0, 63, 64, 16383, 16384, 2^30-1, 2^30, 2^62-1000}, 1-3 messages of lengths 1180..1201 (and random others) per tick on random channels, while crafted valid packets with chosen sequence numbers (ascending / descending / random with gaps needing 1/2/4/8-byte varints) are fed through process_packet so that 1..>64 pending ack ranges exist; every get_packets_to_send element must be <= 1300 bytes and the endpoint must never disconnect with PacketSerialization. (B) full simulated sessions (as C01) including the scripted hold-and-release-in-descending-order link, same monitor. (C) netcode: every datagram produced by generate_payload_packet for payloads 0..1300 at session-sequence magnitudes up to 2^64-1 (crate encoder through the hook) and every handshake / keep-alive / disconnect / denied datagram of honest sessions must be <= 1400 bytes, a 1300-byte payload must never be refused, and the largest datagram under a sequence number of every width must be opened again by the crate's decoder (what may be produced has to be carried). Non-trivial = the execution produced at least one packet longer than 1200 bytes or an ack packet with >= 8 ranges; distinct = distinct fingerprints of (sizes, range counts).",
+    rule: "three kinds of evaluation. (A) sender stress: a fresh RenetClient whose packet-sequence and message-id counters are seeded (hook) to magnitudes {0, 63, 64, 16383, 16384, 2^30-1, 2^30, 2^62-1000}, 1-3 messages of lengths 1180..1201 (and random others) per tick on random channels, while crafted valid packets with chosen sequence numbers (ascending / descending / random with gaps needing 1/2/4/8-byte varints) are fed through process_packet so that 1..>64 pending ack ranges exist; every get_packets_to_send element must be <= 1300 bytes and the endpoint must never disconnect with PacketSerialization. (B) full simulated sessions (as C01) including the scripted hold-and-release-in-descending-order link, same monitor. (C) netcode: every datagram produced by generate_payload_packet for payloads 0..1300 at session-sequence magnitudes up to 2^64-1 (crate encoder through the hook) and every handshake / keep-alive / disconnect / denied datagram of honest sessions must be <= 1400 bytes, a 1300-byte payload must never be refused, and the largest datagram under a sequence number of every width must be opened again by the crate's decoder (what may be produced has to be carried). (D) the carrier itself, one run in 50: a hand-driven netcode client against a real NetcodeServerTransport, or a hand-driven netcode server against a real NetcodeClientTransport, over loopback UDP sockets; payloads of 1228..1300 bytes that are valid message-layer packets are pushed through the socket and must come out of the message layer on the other side. Non-trivial = the execution produced at least one packet longer than 1200 bytes or an ack packet with >= 8 ranges; distinct = distinct fingerprints of (sizes, range counts).",
     assumptions: &["counter magnitudes are reached by the seeding hook, not by running 2^62 ticks", "netcode sequence magnitudes are exercised through the crate's encoder (the session counter itself cannot be seeded)"],
     gates: &[
+        ("carrier_runs", 5),
+        ("carrier_payloads_pushed_through_the_server_transport", 10),
+        ("carrier_payloads_pushed_through_the_client_transport", 10),
         ("incoming_sequence_at_format_maximum", 50),
         ("packets_measured", 5000),
         ("ack_ranges_ge_64", 5),
@@ -44,8 +47,175 @@ pub fn one_run(ctx: &Ctx, out: &mut Outcome, run_seed: u64) {
     match r.below(10) {
         0..=5 => stress(ctx, out, run_seed, &mut r),
         6..=8 => session(ctx, out, run_seed, &mut r),
-        _ => netcode(ctx, out, run_seed, &mut r),
+        _ => {
+            if r.chance(1, 5) {
+                transport_carrier(ctx, out, run_seed, &mut r)
+            } else {
+                netcode(ctx, out, run_seed, &mut r)
+            }
+        }
     }
+}
+
+/// A message-layer packet of exactly `len` bytes that any endpoint accepts: two unreliable messages on channel 0.
+fn renet_packet_of(len: usize, sequence: u64, tag: u8) -> Option<(Vec<u8>, Vec<Vec<u8>>)> {
+    // type 1 | sequence 1 (< 64) | channel 1 | count 2 | (length 2 + bytes) x 2
+    let a = 600usize;
+    let b = len.checked_sub(9 + a)?;
+    let ma: Vec<u8> = (0..a).map(|i| (i as u8) ^ tag).collect();
+    let mb: Vec<u8> = (0..b).map(|i| (i as u8).wrapping_mul(3) ^ tag).collect();
+    let p = Packet::SmallUnreliable { sequence: sequence % 64, channel_id: 0, messages: vec![Bytes::from(ma.clone()), Bytes::from(mb.clone())] };
+    let mut buf = [0u8; 1500];
+    let mut o = octets::OctetsMut::with_slice(&mut buf);
+    let n = p.to_bytes(&mut o).ok()?;
+    if n != len {
+        return None;
+    }
+    Some((buf[..n].to_vec(), vec![ma, mb]))
+}
+
+/// (D) the carrier itself: the real UDP transports must carry every datagram the netcode layer may produce. A hand-driven
+/// netcode client talks to a real NetcodeServerTransport (and a hand-driven netcode server to a real
+/// NetcodeClientTransport) over loopback sockets and pushes payloads of up to 1300 bytes - valid message-layer packets -
+/// through them; each must come out of the message layer on the other side.
+fn transport_carrier(ctx: &Ctx, out: &mut Outcome, run_seed: u64, r: &mut Rng) {
+    use renet::{ConnectionConfig, RenetServer};
+    use renet_netcode::{ClientAuthentication, NetcodeClientTransport, NetcodeServerTransport, ServerAuthentication, ServerConfig};
+    use std::net::UdpSocket;
+    let bind = || -> Option<UdpSocket> {
+        let s = UdpSocket::bind("127.0.0.1:0").ok()?;
+        s.set_nonblocking(true).ok()?;
+        Some(s)
+    };
+    let mut key = [0u8; 32];
+    r.fill(&mut key);
+    let protocol = r.next_u64();
+    let cid = 1 + r.below(1 << 40);
+    let dt = Duration::from_millis(20);
+    let lens: Vec<usize> = {
+        let mut v = vec![1228usize, 1275, 1276, 1283, 1290, 1299, 1300];
+        v.push(r.urange(1229, 1300));
+        v
+    };
+    let mut buf = [0u8; 2048];
+    let to_server = r.chance(1, 2);
+    let fail = |out: &mut Outcome, what: &str, detail: String| {
+        out.violation(
+            ctx,
+            &format!("C13/netcode-datagram-not-carried/{}", what),
+            "a datagram of a legal size (payload <= 1300, datagram <= 1400 bytes) is carried by the transports",
+            detail,
+            json!({"property": "C13", "engine": ctx.engine, "run_seed": format!("{:#x}", run_seed), "mode": "transport-carrier", "direction": what}),
+        );
+    };
+    if to_server {
+        let (Some(ssock), Some(csock)) = (bind(), bind()) else { return out.inconclusive("C13 carrier: cannot bind loopback sockets") };
+        let (saddr, caddr) = (ssock.local_addr().unwrap(), csock.local_addr().unwrap());
+        let cfg = ServerConfig { current_time: Duration::ZERO, max_clients: 2, protocol_id: protocol, public_addresses: vec![saddr], authentication: ServerAuthentication::Secure { private_key: key } };
+        let Ok(mut st) = NetcodeServerTransport::new(cfg, ssock) else { return out.inconclusive("C13 carrier: server transport") };
+        let mut server = RenetServer::new(ConnectionConfig::default());
+        let m = nsim::mint(r, 0, protocol, 600, cid, 15, &[saddr], None, &key);
+        let Ok(mut cli) = nsim::Cli::new(Duration::ZERO, m, caddr) else { return out.inconclusive("C13 carrier: client") };
+        for _ in 0..200 {
+            if let Some((b, to)) = cli.update(dt) {
+                let _ = csock.send_to(&b, to);
+            }
+            server.update(dt);
+            let _ = st.update(dt, &mut server);
+            st.send_packets(&mut server);
+            while let Ok((n, _)) = csock.recv_from(&mut buf) {
+                cli.process(&buf[..n]);
+            }
+            if cli.c.is_connected() && server.is_connected(cid) {
+                break;
+            }
+        }
+        if !(cli.c.is_connected() && server.is_connected(cid)) {
+            return out.inconclusive("C13 carrier: loopback handshake did not complete");
+        }
+        while server.get_event().is_some() {}
+        for (k, len) in lens.iter().enumerate() {
+            let Some((pkt, msgs)) = renet_packet_of(*len, k as u64, k as u8) else { continue };
+            let Ok((to, d)) = cli.payload(&pkt) else {
+                fail(out, "client-refused", format!("generate_payload_packet({} bytes) failed", len));
+                return;
+            };
+            out.max("carrier_datagram_len", d.len() as u64);
+            let _ = csock.send_to(&d, to);
+            server.update(dt);
+            let _ = st.update(dt, &mut server);
+            let mut got: Vec<Vec<u8>> = Vec::new();
+            while let Some(m) = server.receive_message(cid, 0) {
+                got.push(m.to_vec());
+            }
+            out.count("carrier_payloads_pushed_through_the_server_transport");
+            if got != msgs {
+                fail(out, "server-transport", format!("a {}-byte payload ({}-byte datagram) sent to the server transport did not come out of the message layer (obtained {} messages, connected {}, reason {:?})", len, d.len(), got.len(), server.is_connected(cid), server.disconnect_reason(cid)));
+                return;
+            }
+            st.send_packets(&mut server);
+            while let Ok((n, _)) = csock.recv_from(&mut buf) {
+                cli.process(&buf[..n]);
+            }
+        }
+    } else {
+        let (Some(ssock), Some(csock)) = (bind(), bind()) else { return out.inconclusive("C13 carrier: cannot bind loopback sockets") };
+        let (saddr, caddr) = (ssock.local_addr().unwrap(), csock.local_addr().unwrap());
+        let mut srv = nsim::Srv::new(Duration::ZERO, 2, protocol, vec![saddr], key, true);
+        let m = nsim::mint(r, 0, protocol, 600, cid, 15, &[saddr], None, &key);
+        let Ok(mut ct) = NetcodeClientTransport::new(Duration::ZERO, ClientAuthentication::Secure { connect_token: m.token }, csock) else { return out.inconclusive("C13 carrier: client transport") };
+        let mut client = RenetClient::new(ConnectionConfig::default());
+        for _ in 0..200 {
+            client.update(dt);
+            let _ = ct.update(dt, &mut client);
+            let _ = ct.send_packets(&mut client);
+            srv.update(dt);
+            while let Ok((n, from)) = ssock.recv_from(&mut buf) {
+                if let Some((to, b)) = srv.process(from, &buf[..n]).outgoing() {
+                    let _ = ssock.send_to(b, to);
+                }
+            }
+            for id in srv.s.clients_id() {
+                if let Some((to, b)) = srv.update_client(id).outgoing() {
+                    let _ = ssock.send_to(b, to);
+                }
+            }
+            if client.is_connected() && srv.s.is_client_connected(cid) {
+                break;
+            }
+        }
+        if !(client.is_connected() && srv.s.is_client_connected(cid)) {
+            return out.inconclusive("C13 carrier: loopback handshake did not complete");
+        }
+        let _ = caddr;
+        for (k, len) in lens.iter().enumerate() {
+            let Some((pkt, msgs)) = renet_packet_of(*len, k as u64, k as u8) else { continue };
+            let Ok((to, d)) = srv.payload_for(cid, &pkt) else {
+                fail(out, "server-refused", format!("generate_payload_packet({} bytes) failed", len));
+                return;
+            };
+            out.max("carrier_datagram_len", d.len() as u64);
+            let _ = ssock.send_to(&d, to);
+            client.update(dt);
+            let _ = ct.update(dt, &mut client);
+            let mut got: Vec<Vec<u8>> = Vec::new();
+            while let Some(m) = client.receive_message(0) {
+                got.push(m.to_vec());
+            }
+            out.count("carrier_payloads_pushed_through_the_client_transport");
+            if got != msgs {
+                fail(out, "client-transport", format!("a {}-byte payload ({}-byte datagram) sent to the client transport did not come out of the message layer (obtained {} messages, connected {}, reason {:?})", len, d.len(), got.len(), client.is_connected(), client.disconnect_reason()));
+                return;
+            }
+            let _ = ct.send_packets(&mut client);
+            srv.update(dt);
+            while let Ok((n, from)) = ssock.recv_from(&mut buf) {
+                let _ = srv.process(from, &buf[..n]);
+            }
+        }
+    }
+    out.count("carrier_runs");
+    out.eval(crate::rng::mix(&[0xCA44, run_seed, to_server as u64]), true);
 }
 
 fn check_packets(ctx: &Ctx, out: &mut Outcome, c: &RenetClient, pkts: &[Vec<u8>], fp: &mut Fnv, big: &mut bool, history: &dyn Fn() -> serde_json::Value, run_seed: u64) {
